@@ -46,6 +46,7 @@ def judge_positive(job):
     T.setup_repo()
     out = {'viol': [], 'states': 0, 'artefacts': 0, 'refused_by_design': 0, 'samples': []}
     seen = {}
+    nsingle = [0]
 
     def go(sts):
         defs, tops = U.batch_defs(sts)
@@ -73,11 +74,19 @@ def judge_positive(job):
                 out['artefacts'] += 3 * len(sts)
                 return
             if len(sts) > 1:
+                if nsingle[0] >= 6:
+                    # enough single culprits isolated in this batch: report the rest of the failing group as a group
+                    key = 'valid-schema|%s-unusable|one of a group of states (not bisected further)' % bad
+                    seen[key] = seen.get(key, 0) + 1
+                    out['viol'].append((key, {'schema': text, 'state': ' ; '.join(st.key for st in sts[:40]),
+                                              'detail': '%s: %s' % (bad, status[bad])} if seen[key] <= 1 else None))
+                    return
                 mid = len(sts) // 2
                 go(sts[:mid])
                 go(sts[mid:])
                 return
             st = sts[0]
+            nsingle[0] += 1
             ref = R.Ref(defs)
             from .. import pyjudge
             key = 'valid-schema|%s-unusable|%s' % (bad, pyjudge._shape_key(ref, tops[0], st))
